@@ -68,7 +68,7 @@ pub fn cores() -> Vec<(&'static str, Exp)> {
     ]
 }
 
-pub const CTX_NAMES: [&str; 14] = ["id", "2*.", "-1*.", ".*-0.5", "-.", ".+1", "1-.", "./2", "./-2", "abs{.}", "min{.,1}", "max{.,0}", ".-x", "0*."];
+pub const CTX_NAMES: [&str; 15] = ["id", "2*.", "-1*.", ".*-0.5", "-.", ".+1", "1-.", "./2", "./-2", "abs{.}", "min{.,1}", "max{.,0}", ".-x", "0*.", "1-(-.+x)"];
 
 pub fn ctx(i: usize, e: Exp) -> Exp {
     match i {
@@ -85,7 +85,9 @@ pub fn ctx(i: usize, e: Exp) -> Exp {
         10 => Exp::Min(vec![e, num(1.0)]),
         11 => Exp::Max(vec![e, num(0.0)]),
         12 => bin(BinOp::Sub, e, var("x")),
-        _ => bin(BinOp::Mul, num(0.0), e),
+        13 => bin(BinOp::Mul, num(0.0), e),
+        // a unary minus at a subtracted position of a +/- chain
+        _ => bin(BinOp::Sub, num(1.0), bin(BinOp::Add, neg(e), var("x"))),
     }
 }
 
@@ -649,7 +651,7 @@ pub fn run(mut run: Run) -> ! {
     run.case_timeout_s = 60.0;
     let quick = run.quick();
     let depth = if quick { 1 } else { 2 };
-    run.rule = format!("Model values built through the public constructors (usage marks as the transformer sets them): family A = {} cores (abs/min/max nests, logic values in arithmetic, dominated and equal operands) x every chain of <= {depth} contexts from 13 (positive/negative/zero scale, negation, subtraction on either side, division by +-2, abs, min, max, minus x) x 3 relations x 7 constants (incl. the ends +-3 of the declared ranges) x both sides x 8 declaration forms (declared, row-derived, scaled-row-derived, unbounded, half-bounded, integer), family AX = the same at depth <= 1 over two more declaration forms (single-point integer range, finite range of +-1e18 with a bounding row, an integer range next to rows that cancel to a true constant comparison); family B = every logic tree with <= 2 operator nodes over b,c,d,0,1 (incl. n-ary and empty and/or), plus every binary logic operator over operands with 0, 1 or 2 negations and every nesting of two binary logic operators over three variables (plain and negated), x bare assertion and 30 comparison forms; family C = 12 bound feeders x 15 consumers; family D = 14 cores over three variables with different ranges (x real, w real, y real or integer; min/max with three operands, nested blocks, sums of blocks) in every context (thorough) x 3 relations x (6 constants incl. the range ends of w and y, or the variable w) x both sides, decided for every real x on every grid line of the other continuous variables; each compiled model is decided exactly: all assignments of the discrete variables x every cell (breakpoints, midpoints, beyond-ends) of the region partition of the continuous one; distinct = model text; non-trivial = compiled with at least one auxiliary or changed row count", cores().len());
+    run.rule = format!("Model values built through the public constructors (usage marks as the transformer sets them): family A = {} cores (abs/min/max nests, logic values in arithmetic, dominated and equal operands) x every chain of <= {depth} contexts from 14 (positive/negative/zero scale, a unary minus at a subtracted position of a chain, negation, subtraction on either side, division by +-2, abs, min, max, minus x) x 3 relations x 7 constants (incl. the ends +-3 of the declared ranges) x both sides x 8 declaration forms (declared, row-derived, scaled-row-derived, unbounded, half-bounded, integer), family AX = the same at depth <= 1 over two more declaration forms (single-point integer range, finite range of +-1e18 with a bounding row, an integer range next to rows that cancel to a true constant comparison); family B = every logic tree with <= 2 operator nodes over b,c,d,0,1 (incl. n-ary and empty and/or), plus every binary logic operator over operands with 0, 1 or 2 negations and every nesting of two binary logic operators over three variables (plain and negated), x bare assertion and 30 comparison forms; family C = 12 bound feeders x 15 consumers; family D = 14 cores over three variables with different ranges (x real, w real, y real or integer; min/max with three operands, nested blocks, sums of blocks) in every context (thorough) x 3 relations x (6 constants incl. the range ends of w and y, or the variable w) x both sides, decided for every real x on every grid line of the other continuous variables; each compiled model is decided exactly: all assignments of the discrete variables x every cell (breakpoints, midpoints, beyond-ends) of the region partition of the continuous one; distinct = model text; non-trivial = compiled with at least one auxiliary or changed row count", cores().len());
     run.assume("exact source semantics (refsem) and exact projection of the linear model: integer auxiliaries enumerated, continuous auxiliaries by exact LP; the projection's interval endpoints are added to the test points, so S = L is decided on the whole real line of one continuous variable; extra continuous variables are checked on a 9-point rational grid (slice mode)");
     run.assume("models in which the continuous variable occurs under a logic operator, or whose source is undefined at a test point, are skipped and counted");
     let sa = family_a_size(depth, quick);
